@@ -468,3 +468,789 @@ Proof.
   { intros a b Hab. induction Hab; [apply edge_rank; auto | lia]. }
   specialize (Hlt _ _ Hc). lia.
 Qed.
+
+(* ------------------------------------------------------------------------------------------ *)
+(* outputs are unique when _module_to_output_path is injective on the modules                  *)
+
+Definition item_out (i : item) : path := PPyi (m_key (it_mod i)) (is_first (it_stage i)).
+
+Inductive subseq {A} : list A -> list A -> Prop :=
+| sub_nil : subseq [] []
+| sub_skip : forall x l1 l2, subseq l1 l2 -> subseq l1 (x :: l2)
+| sub_take : forall x l1 l2, subseq l1 l2 -> subseq (x :: l1) (x :: l2).
+
+Lemma subseq_in : forall {A} (l1 l2 : list A), subseq l1 l2 -> forall x, In x l1 -> In x l2.
+Proof. induction 1; simpl; intros y Hy; auto. destruct Hy; auto. Qed.
+
+Lemma subseq_nodup : forall {A} (l1 l2 : list A), subseq l1 l2 -> NoDup l2 -> NoDup l1.
+Proof.
+  induction 1; intros Hn; auto.
+  - inversion Hn; auto.
+  - inversion Hn; subst. constructor; auto. intro Hc. apply H2. eapply subseq_in; eauto.
+Qed.
+
+Lemma subseq_nil_l : forall {A} (l : list A), subseq [] l.
+Proof. induction l; constructor; auto. Qed.
+
+Lemma run_outs : forall req items s s', run req items s = Some s' ->
+  exists l, map s_out (plan s') = map s_out (plan s) ++ l /\ subseq l (map item_out items).
+Proof.
+  induction items as [|i r IH]; simpl; intros s s' H.
+  - inversion H; subst. exists []. rewrite app_nil_r. split; [reflexivity|constructor].
+  - destruct (setup_step req s i) as [s1|] eqn:E; [|discriminate].
+    destruct (IH _ _ H) as [l [H1 H2]].
+    destruct (setup_step_cases _ _ _ _ E) as [[_ ->] | [[_ [Hd ->]] | [_ [Hnd [im [ds [Hg [Hdd Hs']]]]]]]].
+    + exists l. split; [exact H1|]. apply sub_skip; auto.
+    + exists l. split; [exact H1|]. apply sub_skip; auto.
+    + simpl in Hs'. subst s1. simpl in H1. rewrite map_app in H1. simpl in H1. rewrite <- app_assoc in H1.
+      exists (item_out i :: l). split; [exact H1|]. apply sub_take; auto.
+Qed.
+
+Lemma nodup_app : forall {A} (l1 l2 : list A),
+  NoDup l1 -> NoDup l2 -> (forall x, In x l1 -> ~ In x l2) -> NoDup (l1 ++ l2).
+Proof.
+  induction l1 as [|a r IH]; simpl; intros l2 H1 H2 Hd; auto.
+  inversion H1; subst. constructor.
+  - intro Hc. apply in_app_or in Hc. destruct Hc; [tauto|]. eapply Hd; eauto.
+  - apply IH; auto.
+Qed.
+
+Lemma nodup_app_inv : forall {A} (l1 l2 : list A),
+  NoDup (l1 ++ l2) -> NoDup l1 /\ NoDup l2 /\ (forall x, In x l1 -> ~ In x l2).
+Proof.
+  induction l1 as [|a r IH]; simpl; intros l2 H.
+  - repeat split; auto. constructor.
+  - inversion H; subst. destruct (IH _ H3) as [Ha [Hb Hc]]. repeat split; auto.
+    + constructor; auto. intro Hx. apply H2. apply in_or_app; auto.
+    + intros x [->|Hx]; auto. intro Hx. apply H2. apply in_or_app; auto.
+Qed.
+
+Lemma nodup_map_filter : forall {A B} (f : A -> B) (P : A -> bool) l, NoDup (map f l) -> NoDup (map f (filter P l)).
+Proof.
+  induction l as [|a r IH]; simpl; intros H; auto.
+  inversion H; subst. destruct (P a); simpl; auto. constructor; auto.
+  intro Hc. apply H2. apply in_map_iff in Hc. destruct Hc as [x [Hx Hin]].
+  apply filter_In in Hin. destruct Hin. apply in_map_iff. exists x; auto.
+Qed.
+
+Lemma nodup_pyi : forall b l, NoDup (map m_key l) -> NoDup (map (fun m => PPyi (m_key m) b) l).
+Proof.
+  induction l as [|a r IH]; simpl; intros H; [constructor|].
+  inversion H; subst. constructor; auto.
+  intro Hc. apply H2. apply in_map_iff in Hc. destruct Hc as [x [Hx Hin]].
+  inversion Hx. apply in_map_iff. exists x; auto.
+Qed.
+
+Lemma first_outs : forall req deps (f : action -> action) l,
+  map item_out (map (fun ma : module * action => (fst ma, f (snd ma), deps, FIRST_PASS))
+                    (map (fun m => (m, get_module_action req m)) l))
+  = map (fun m => PPyi (m_key m) true) l.
+Proof. induction l as [|a r IH]; simpl; [reflexivity|]. rewrite IH. reflexivity. Qed.
+
+Lemma second_outs : forall req deps2 l,
+  map item_out (flat_map (fun ma : module * action =>
+                   if is_default (snd ma) then [] else [(fst ma, snd ma, deps2, SECOND_PASS)])
+                 (map (fun m => (m, get_module_action req m)) l))
+  = map (fun m => PPyi (m_key m) false) (filter (fun m => negb (is_default (get_module_action req m))) l).
+Proof.
+  induction l as [|a r IH]; simpl; [reflexivity|].
+  destruct (is_default (get_module_action req a)); simpl; rewrite IH; reflexivity.
+Qed.
+
+Definition analysed (req : list N) (m : module) : bool := negb (is_default (get_module_action req m)).
+
+Lemma group_outs : forall req g d,
+  map item_out (yield_group req (g, d)) =
+  match g with
+  | [m] => [PPyi (m_key m) false]
+  | _ => map (fun m => PPyi (m_key m) true) g ++ map (fun m => PPyi (m_key m) false) (filter (analysed req) g)
+  end.
+Proof.
+  intros req g d. unfold yield_group.
+  destruct g as [|m [|m2 r]].
+  - reflexivity.
+  - reflexivity.
+  - remember (m :: m2 :: r) as g eqn:Eg.
+    assert (Hm : match map (fun m0 => (m0, get_module_action req m0)) g with [(_, _)] => False | _ => True end).
+    { subst g. simpl. exact I. }
+    destruct (map (fun m0 => (m0, get_module_action req m0)) g) as [|[m' a'] [|x rest]] eqn:Em; try tauto.
+    + subst g; discriminate.
+    + rewrite <- Em. rewrite map_app.
+      rewrite (first_outs req d (fun a => if is_check a then INFER else a)).
+      rewrite second_outs. subst g. reflexivity.
+Qed.
+
+Lemma group_outs_nodup : forall req g d, NoDup (map m_key g) -> NoDup (map item_out (yield_group req (g, d))).
+Proof.
+  intros req g d H. rewrite group_outs.
+  assert (Hc : NoDup (map (fun m => PPyi (m_key m) true) g ++
+                      map (fun m => PPyi (m_key m) false) (filter (analysed req) g))).
+  { apply nodup_app.
+    - apply nodup_pyi; auto.
+    - apply (nodup_pyi false). apply nodup_map_filter; auto.
+    - intros x H1 H2. apply in_map_iff in H1. apply in_map_iff in H2.
+      destruct H1 as [a [<- _]]. destruct H2 as [b [Hb _]]. discriminate. }
+  destruct g as [|m [|m2 r]]; auto. constructor; [simpl; tauto | constructor].
+Qed.
+
+Lemma group_outs_key : forall req g d o, In o (map item_out (yield_group req (g, d))) ->
+  exists m b, In m g /\ o = PPyi (m_key m) b.
+Proof.
+  intros req g d o H. rewrite group_outs in H.
+  assert (Hc : In o (map (fun m => PPyi (m_key m) true) g ++
+                     map (fun m => PPyi (m_key m) false) (filter (analysed req) g)) ->
+               exists m b, In m g /\ o = PPyi (m_key m) b).
+  { intros Hi. apply in_app_or in Hi. destruct Hi as [Hi|Hi]; apply in_map_iff in Hi; destruct Hi as [m [<- Hm]].
+    - exists m, true; auto.
+    - apply filter_In in Hm. destruct Hm. exists m, false; auto. }
+  destruct g as [|m [|m2 r]]; auto.
+  destruct H as [<-|[]]. exists m, false. split; simpl; auto.
+Qed.
+
+Lemma yield_outs_nodup : forall req ss, NoDup (map m_key (members ss)) ->
+  NoDup (map item_out (yield_sorted_modules req ss)).
+Proof.
+  induction ss as [|[g d] r IH]; simpl; intros H; [constructor|].
+  unfold members in H. simpl in H. rewrite map_app in H.
+  apply nodup_app_inv in H. destruct H as [Hg [Hr Hd]].
+  rewrite map_app. apply nodup_app.
+  - apply group_outs_nodup; auto.
+  - apply IH; auto.
+  - intros o H1 H2. destruct (group_outs_key _ _ _ _ H1) as [m [b [Hm ->]]].
+    unfold yield_sorted_modules in H2. rewrite flat_map_concat_map in H2.
+    rewrite concat_map in H2. rewrite map_map in H2. apply in_concat in H2.
+    destruct H2 as [l [Hl Ho]]. apply in_map_iff in Hl. destruct Hl as [[g' d'] [<- Hg']].
+    destruct (group_outs_key _ _ _ _ Ho) as [m' [b' [Hm' Heq]]]. inversion Heq.
+    apply (Hd (m_key m)).
+    + apply in_map; auto.
+    + rewrite H0. apply in_map. unfold members. apply in_flat_map. exists (g', d'); auto.
+Qed.
+
+Lemma outputs_unique_lemma : forall req ss s,
+  setup_build req ss = Some s -> NoDup (map m_key (members ss)) -> NoDup (map s_out (plan s)).
+Proof.
+  intros req ss s H Hk. unfold setup_build in H.
+  destruct (run_outs _ _ _ _ H) as [l [H1 H2]]. simpl in H1. rewrite H1.
+  eapply subseq_nodup; eauto. apply yield_outs_nodup; auto.
+Qed.
+
+(* ------------------------------------------------------------------------------------------ *)
+(* every requested, analysable file gets exactly one CHECK statement                           *)
+
+Definition fin (i : item) : bool := negb (is_first (it_stage i)) && negb (is_default (it_act i)).
+Definition final_for (f : N) (i : item) : bool := fin i && (m_full (it_mod i) =? f)%N.
+Definition chk (f : N) (i : item) : bool := final_for f i && is_check (it_act i).
+
+Lemma checks_of_snoc : forall f p t,
+  checks_of f (p ++ [t]) = checks_of f p + (if is_check (s_action t) && (s_input t =? f)%N then 1 else 0).
+Proof.
+  intros. unfold checks_of. rewrite filter_app, app_length. simpl.
+  destruct (is_check (s_action t) && (s_input t =? f)%N); reflexivity.
+Qed.
+
+Lemma all_done_in : forall req fs f, all_requested_done req fs = true -> In f req -> In f fs.
+Proof.
+  intros req fs f H Hin. unfold all_requested_done in H. rewrite forallb_forall in H.
+  apply memN_In. apply H; auto.
+Qed.
+
+Lemma step_nonfinal : forall req f s i s1,
+  setup_step req s i = Some s1 -> item_ok req i -> final_for f i = false ->
+  checks_of f (plan s1) = checks_of f (plan s) /\ (In f (files s1) -> In f (files s)).
+Proof.
+  intros req f s i s1 Hs [_ [Hf _]] Hnf.
+  destruct (setup_step_cases _ _ _ _ Hs) as [[_ ->] | [[_ [Hd ->]] | [_ [Hnd [im [ds [Hg [Hdd Hs']]]]]]]]; auto.
+  simpl in Hs'. subst s1. simpl. rewrite checks_of_snoc. simpl.
+  unfold final_for, fin in Hnf. rewrite Hnd in Hnf. simpl in Hnf. rewrite andb_true_r in Hnf.
+  destruct (is_first (it_stage i)) eqn:E1; simpl in *.
+  - rewrite (Hf eq_refl). simpl. split; [lia|auto].
+  - rewrite Hnf. rewrite andb_false_r. split; [lia|].
+    intros [H|H]; auto. apply N.eqb_neq in Hnf. congruence.
+Qed.
+
+Lemma step_final : forall req f s i s1,
+  setup_step req s i = Some s1 -> final_for f i = true -> In f req -> ~ In f (files s) ->
+  checks_of f (plan s1) = checks_of f (plan s) + (if is_check (it_act i) then 1 else 0).
+Proof.
+  intros req f s i s1 Hs Hfin Hreq Hnin.
+  unfold final_for, fin in Hfin. rewrite !andb_true_iff, !negb_true_iff in Hfin. destruct Hfin as [[H1 H2] H3].
+  destruct (setup_step_cases _ _ _ _ Hs) as [[Hd _] | [[_ [Hd _]] | [_ [Hnd [im [ds [Hg [Hdd Hs']]]]]]]].
+  - exfalso. apply Hnin. eapply all_done_in; eauto.
+  - congruence.
+  - simpl in Hs'. subst s1. simpl. rewrite checks_of_snoc. simpl. rewrite H3, andb_true_r. reflexivity.
+Qed.
+
+Lemma run_nonfinal : forall req f items s s',
+  run req items s = Some s' -> (forall i, In i items -> item_ok req i) ->
+  (forall i, In i items -> final_for f i = false) ->
+  checks_of f (plan s') = checks_of f (plan s) /\ (In f (files s') -> In f (files s)).
+Proof.
+  induction items as [|i r IH]; simpl; intros s s' H Hok Hnf.
+  - inversion H; auto.
+  - destruct (setup_step req s i) as [s1|] eqn:E; [|discriminate].
+    destruct (step_nonfinal req f _ _ _ E (Hok _ (or_introl eq_refl)) (Hnf _ (or_introl eq_refl))) as [A B].
+    destruct (IH _ _ H (fun i h => Hok i (or_intror h)) (fun i h => Hnf i (or_intror h))) as [C D].
+    split; [congruence | auto].
+Qed.
+
+Lemma filter_nil_iff : forall {A} (P : A -> bool) l, filter P l = [] <-> forall x, In x l -> P x = false.
+Proof.
+  induction l as [|a r IH]; simpl; [split; [intros _ x []|reflexivity]|].
+  destruct (P a) eqn:E.
+  - split; [discriminate|]. intros H. specialize (H a (or_introl eq_refl)). congruence.
+  - rewrite IH. split; intros H x; [intros [<-|Hx]; auto | intros Hx; apply H; auto].
+Qed.
+
+Lemma run_checks : forall req f items s s',
+  run req items s = Some s' -> (forall i, In i items -> item_ok req i) ->
+  In f req -> ~ In f (files s) -> length (filter (final_for f) items) <= 1 ->
+  checks_of f (plan s') = checks_of f (plan s) + length (filter (chk f) items).
+Proof.
+  induction items as [|i r IH]; simpl; intros s s' H Hok Hreq Hnin Hle.
+  - inversion H; subst. lia.
+  - destruct (setup_step req s i) as [s1|] eqn:E; [|discriminate].
+    unfold chk at 1. destruct (final_for f i) eqn:Ef; simpl in *.
+    + assert (Hr : filter (final_for f) r = []) by (destruct (filter (final_for f) r); [reflexivity | simpl in Hle; lia]).
+      rewrite filter_nil_iff in Hr.
+      destruct (run_nonfinal req f _ _ _ H (fun i h => Hok i (or_intror h)) Hr) as [A _].
+      rewrite A. rewrite (step_final _ _ _ _ _ E Ef Hreq Hnin).
+      assert (Hc : filter (chk f) r = []).
+      { apply filter_nil_iff. intros x Hx. unfold chk. rewrite (Hr _ Hx). reflexivity. }
+      rewrite Hc. destruct (is_check (it_act i)); simpl; lia.
+    + destruct (step_nonfinal req f _ _ _ E (Hok _ (or_introl eq_refl)) Ef) as [A B].
+      rewrite <- A. apply IH; auto.
+Qed.
+
+Definition firsts (req : list N) (d : list module) (l : list module) : list item :=
+  map (fun ma : module * action => (fst ma, (if is_check (snd ma) then INFER else snd ma), d, FIRST_PASS))
+      (map (fun m => (m, get_module_action req m)) l).
+Definition seconds (req : list N) (d2 : list module) (l : list module) : list item :=
+  flat_map (fun ma : module * action => if is_default (snd ma) then [] else [(fst ma, snd ma, d2, SECOND_PASS)])
+           (map (fun m => (m, get_module_action req m)) l).
+
+Lemma yield_group_cycle : forall req m m2 r d,
+  yield_group req (m :: m2 :: r, d) =
+  firsts req d (m :: m2 :: r) ++ seconds req (d ++ (m :: m2 :: r)) (m :: m2 :: r).
+Proof.
+  intros. unfold yield_group, firsts, seconds.
+  replace (map fst (map (fun m0 => (m0, get_module_action req m0)) (m :: m2 :: r))) with (m :: m2 :: r).
+  - reflexivity.
+  - rewrite map_map. simpl. rewrite map_id. reflexivity.
+Qed.
+
+Lemma firsts_fin : forall req d l, filter fin (firsts req d l) = [].
+Proof. induction l as [|a r IH]; simpl; auto. Qed.
+
+Lemma seconds_fin : forall req d2 l,
+  map it_mod (filter fin (seconds req d2 l)) = filter (analysed req) l.
+Proof.
+  induction l as [|a r IH]; simpl; [reflexivity|].
+  unfold seconds in *. simpl. unfold analysed at 1.
+  destruct (is_default (get_module_action req a)) eqn:E; simpl; auto.
+  unfold fin at 1. simpl. unfold it_act. simpl. rewrite E. simpl. unfold it_mod at 1. simpl. rewrite IH. reflexivity.
+Qed.
+
+Lemma group_finals : forall req g d,
+  map it_mod (filter fin (yield_group req (g, d))) = filter (analysed req) g.
+Proof.
+  intros req g d. destruct g as [|m [|m2 r]].
+  - reflexivity.
+  - unfold yield_group. simpl. unfold fin, analysed, it_act, it_stage. simpl.
+    destruct (is_default (get_module_action req m)); reflexivity.
+  - rewrite yield_group_cycle. rewrite filter_app, firsts_fin. simpl app. apply seconds_fin.
+Qed.
+
+Lemma yield_finals : forall req ss,
+  map it_mod (filter fin (yield_sorted_modules req ss)) = filter (analysed req) (members ss).
+Proof.
+  induction ss as [|[g d] r IH]; [reflexivity|].
+  unfold yield_sorted_modules, members in *. cbn [flat_map fst].
+  rewrite !filter_app, map_app, group_finals, IH. reflexivity.
+Qed.
+
+Lemma filter_map_comm : forall {A B} (g : A -> B) (P : B -> bool) l,
+  filter P (map g l) = map g (filter (fun x => P (g x)) l).
+Proof.
+  induction l as [|a r IH]; simpl; [reflexivity|]. destruct (P (g a)); simpl; rewrite IH; reflexivity.
+Qed.
+
+Lemma filter_filter : forall {A} (P Q : A -> bool) l,
+  filter P (filter Q l) = filter (fun x => Q x && P x) l.
+Proof.
+  induction l as [|a r IH]; simpl; [reflexivity|].
+  destruct (Q a); simpl; [destruct (P a); simpl|]; rewrite IH; reflexivity.
+Qed.
+
+Lemma nodup_filter_eq_le1 : forall (l : list module) f,
+  NoDup (map m_full l) -> length (filter (fun m => (m_full m =? f)%N) l) <= 1.
+Proof.
+  induction l as [|a r IH]; simpl; intros f H; [lia|].
+  inversion H; subst. specialize (IH f H3).
+  destruct (m_full a =? f)%N eqn:E; simpl; [|lia].
+  apply N.eqb_eq in E. subst f.
+  assert (filter (fun m => (m_full m =? m_full a)%N) r = []).
+  { apply filter_nil_iff. intros x Hx. apply N.eqb_neq. intro Hc. apply H2. rewrite <- Hc. apply in_map; auto. }
+  rewrite H0. simpl. lia.
+Qed.
+
+Lemma nfinal_le1 : forall req ss f, NoDup (map m_full (members ss)) ->
+  length (filter (final_for f) (yield_sorted_modules req ss)) <= 1.
+Proof.
+  intros req ss f H.
+  assert (E : filter (final_for f) (yield_sorted_modules req ss) =
+              filter (fun i => (m_full (it_mod i) =? f)%N) (filter fin (yield_sorted_modules req ss))).
+  { rewrite filter_filter. reflexivity. }
+  rewrite E.
+  rewrite <- (map_length it_mod).
+  rewrite <- (filter_map_comm it_mod (fun m => (m_full m =? f)%N)).
+  rewrite yield_finals.
+  apply nodup_filter_eq_le1. apply (nodup_map_filter m_full (analysed req)). exact H.
+Qed.
+
+Lemma group_check_item : forall req g d m, In m g -> get_module_action req m = CHECK ->
+  exists i, In i (yield_group req (g, d)) /\ it_mod i = m /\ is_first (it_stage i) = false /\ it_act i = CHECK.
+Proof.
+  intros req g d m Hin Ha.
+  destruct g as [|m1 [|m2 r]].
+  - destruct Hin.
+  - destruct Hin as [<-|[]]. exists (m1, get_module_action req m1, d, SINGLE_PASS).
+    unfold yield_group. simpl. repeat split; auto.
+  - rewrite yield_group_cycle. remember (m1 :: m2 :: r) as g.
+    exists (m, CHECK, d ++ g, SECOND_PASS). split; [|repeat split; reflexivity].
+    apply in_or_app. right. unfold seconds. apply in_flat_map.
+    exists (m, get_module_action req m). split.
+    + apply in_map_iff. exists m; auto.
+    + simpl. rewrite Ha. simpl. left; reflexivity.
+Qed.
+
+Lemma yield_check_item : forall req ss m, In m (members ss) -> get_module_action req m = CHECK ->
+  exists i, In i (yield_sorted_modules req ss) /\ chk (m_full m) i = true.
+Proof.
+  intros req ss m Hin Ha. unfold members in Hin. apply in_flat_map in Hin. destruct Hin as [[g d] [Hg Hm]].
+  simpl in Hm. destruct (group_check_item req g d m Hm Ha) as [i [Hi [H1 [H2 H3]]]].
+  exists i. split.
+  - unfold yield_sorted_modules. apply in_flat_map. exists (g, d); auto.
+  - unfold chk, final_for, fin. rewrite H1, H2, H3. simpl. rewrite N.eqb_refl. reflexivity.
+Qed.
+
+Lemma filter_length_le : forall {A} (P Q : A -> bool) l, (forall x, P x = true -> Q x = true) ->
+  length (filter P l) <= length (filter Q l).
+Proof.
+  induction l as [|a r IH]; simpl; intros H; [lia|]. specialize (IH H).
+  destruct (P a) eqn:E; [rewrite (H _ E); simpl; lia | destruct (Q a); simpl; lia].
+Qed.
+
+Lemma checked_once_lemma : forall req ss s m,
+  setup_build req ss = Some s -> NoDup (map m_full (members ss)) ->
+  In m (members ss) -> get_module_action req m = CHECK ->
+  checks_of (m_full m) (plan s) = 1.
+Proof.
+  intros req ss s m H Hnd Hin Ha. unfold setup_build in H.
+  assert (Hreq : In (m_full m) req).
+  { unfold get_module_action in Ha. destruct (negb (m_ext m) && is_sys (m_kind m)); [discriminate|].
+    destruct (memN (m_full m) req) eqn:E; [apply memN_In; auto | discriminate]. }
+  pose proof (nfinal_le1 req ss (m_full m) Hnd) as Hle.
+  rewrite (run_checks req (m_full m) _ _ _ H (fun i h => yield_ok _ _ _ h) Hreq (fun x => x) Hle).
+  simpl.
+  destruct (yield_check_item req ss m Hin Ha) as [i [Hi Hc]].
+  assert (1 <= length (filter (chk (m_full m)) (yield_sorted_modules req ss))).
+  { assert (In i (filter (chk (m_full m)) (yield_sorted_modules req ss))) by (apply filter_In; auto).
+    destruct (filter (chk (m_full m)) (yield_sorted_modules req ss)); [destruct H0 | simpl; lia]. }
+  assert (length (filter (chk (m_full m)) (yield_sorted_modules req ss)) <=
+          length (filter (final_for (m_full m)) (yield_sorted_modules req ss))).
+  { apply filter_length_le. intros x Hx. unfold chk in Hx. apply andb_true_iff in Hx. tauto. }
+  lia.
+Qed.
+
+(* CHECK statements are only ever written for requested files, and never in a first pass *)
+Lemma check_only_requested_lemma : forall req ss s t,
+  setup_build req ss = Some s -> In t (plan s) -> s_action t = CHECK ->
+  In (s_input t) req /\ exists k, s_out t = PPyi k false.
+Proof.
+  intros req ss s t H. unfold setup_build in H.
+  assert (G : forall items s0 s1, run req items s0 = Some s1 -> (forall i, In i items -> item_ok req i) ->
+              (forall t, In t (plan s0) -> s_action t = CHECK -> In (s_input t) req /\ exists k, s_out t = PPyi k false) ->
+              (forall t, In t (plan s1) -> s_action t = CHECK -> In (s_input t) req /\ exists k, s_out t = PPyi k false)).
+  { induction items as [|i r IH]; simpl; intros s0 s1 Hr Hok Hp.
+    - inversion Hr; subst; auto.
+    - destruct (setup_step req s0 i) as [s2|] eqn:E; [|discriminate].
+      apply (IH _ _ Hr (fun i h => Hok i (or_intror h))).
+      destruct (setup_step_cases _ _ _ _ E) as [[_ ->] | [[_ [Hd ->]] | [_ [Hnd [im [ds [Hg [Hdd Hs']]]]]]]]; auto.
+      simpl in Hs'. subst s2. simpl. intros t0 Hin Hact. apply in_app_or in Hin. destruct Hin as [Hin|[<-|[]]]; auto.
+      simpl in *. destruct (Hok i (or_introl eq_refl)) as [_ [Hf Hnf]].
+      destruct (is_first (it_stage i)) eqn:Ef.
+      + specialize (Hf eq_refl). rewrite Hact in Hf. discriminate.
+      + split; [|eexists; reflexivity]. specialize (Hnf eq_refl). rewrite Hact in Hnf.
+        symmetry in Hnf. unfold get_module_action in Hnf.
+        destruct (negb (m_ext (it_mod i)) && is_sys (m_kind (it_mod i))); [discriminate|].
+        destruct (memN (m_full (it_mod i)) req) eqn:Em; [apply memN_In; auto | discriminate]. }
+  apply (G _ _ _ H); [intros; eapply yield_ok; eauto | simpl; tauto].
+Qed.
+
+(* ------------------------------------------------------------------------------------------ *)
+(* well-formed sorted_sources never raise KeyError                                             *)
+
+Definition covered (req : list N) (s : st) (l : list module) : Prop :=
+  all_requested_done req (files s) = true \/ forall x, In x l -> lookup x (m2out s) <> None.
+
+Lemma covered_weaken : forall req s l l', covered req s l -> (forall x, In x l' -> In x l) -> covered req s l'.
+Proof. intros req s l l' [H|H] Hi; [left; auto | right; auto]. Qed.
+
+Lemma step_covered : forall req s l i,
+  covered req s l -> (forall d, In d (it_deps i) -> In d l) ->
+  exists s1, setup_step req s i = Some s1 /\ covered req s1 (l ++ [it_mod i]).
+Proof.
+  intros req s l [[[m a] deps] stg] Hc Hd. unfold it_deps, it_mod in *. simpl in *.
+  destruct (all_requested_done req (files s)) eqn:Ed.
+  - exists s. split; [reflexivity | left; auto].
+  - destruct Hc as [Hc|Hc]; [congruence|].
+    assert (Hnew : forall (o : path) x, In x (l ++ [m]) -> lookup x ((m, o) :: m2out s) <> None).
+    { intros o x Hx. simpl. destruct (module_eqb x m) eqn:E; [discriminate|].
+      apply in_app_or in Hx. destruct Hx as [Hx|[<-|[]]]; auto.
+      rewrite module_eqb_refl in E. discriminate. }
+    destruct (is_default a).
+    + eexists. split; [reflexivity|]. right. simpl. apply Hnew.
+    + pose proof (gim_some deps (m2imp s) (m2out s) [] (fun d h => Hc d (Hd d h))) as G.
+      pose proof (dd_some deps (m2out s) (fun d h => Hc d (Hd d h))) as D.
+      destruct (get_imports_map deps (m2imp s) (m2out s) []); [|congruence].
+      destruct (declared_deps deps (m2out s)); [|congruence].
+      eexists. split; [reflexivity|]. right. simpl. apply Hnew.
+Qed.
+
+Fixpoint deps_ok (l : list module) (items : list item) : Prop :=
+  match items with
+  | [] => True
+  | i :: r => (forall d, In d (it_deps i) -> In d l) /\ deps_ok (l ++ [it_mod i]) r
+  end.
+
+Lemma deps_ok_mono : forall items l l', (forall x, In x l -> In x l') -> deps_ok l items -> deps_ok l' items.
+Proof.
+  induction items as [|i r IH]; simpl; intros l l' Hi H; auto.
+  destruct H as [H1 H2]. split; auto.
+  apply (IH (l ++ [it_mod i])); auto.
+  intros x Hx. apply in_app_or in Hx. apply in_or_app. destruct Hx; auto.
+Qed.
+
+Lemma deps_ok_app : forall a l b, deps_ok l a -> deps_ok (l ++ map it_mod a) b -> deps_ok l (a ++ b).
+Proof.
+  induction a as [|i r IH]; simpl; intros l b Ha Hb.
+  - rewrite app_nil_r in Hb. exact Hb.
+  - destruct Ha as [H1 H2]. split; auto. apply IH; auto.
+    rewrite <- app_assoc. simpl. exact Hb.
+Qed.
+
+Lemma run_covered : forall req items s l,
+  covered req s l -> deps_ok l items ->
+  exists s', run req items s = Some s' /\ covered req s' (l ++ map it_mod items).
+Proof.
+  induction items as [|i r IH]; simpl; intros s l Hc Hd.
+  - exists s. rewrite app_nil_r. auto.
+  - destruct Hd as [H1 H2]. destruct (step_covered _ _ _ _ Hc H1) as [s1 [E C1]]. rewrite E.
+    destruct (IH _ _ C1 H2) as [s' [R C']]. exists s'. split; auto.
+    rewrite <- app_assoc in C'. exact C'.
+Qed.
+
+Lemma firsts_deps_ok : forall req d g l, (forall x, In x d -> In x l) -> deps_ok l (firsts req d g).
+Proof.
+  induction g as [|m r IH]; simpl; intros l H; auto. split; auto.
+  apply IH. intros x Hx. apply in_or_app; auto.
+Qed.
+
+Lemma seconds_deps_ok : forall req d2 g l, (forall x, In x d2 -> In x l) -> deps_ok l (seconds req d2 g).
+Proof.
+  induction g as [|m r IH]; intros l H; [exact I|].
+  unfold seconds in *. simpl. destruct (is_default (get_module_action req m)); simpl.
+  - apply IH; auto.
+  - split; auto. apply IH. intros x Hx. apply in_or_app; auto.
+Qed.
+
+Lemma firsts_mods : forall req d g, map it_mod (firsts req d g) = g.
+Proof. induction g as [|m r IH]; simpl; [reflexivity|]. unfold it_mod at 1. simpl. f_equal. exact IH. Qed.
+
+Lemma group_deps_ok : forall req g d seen, (forall x, In x d -> In x seen) ->
+  deps_ok seen (yield_group req (g, d)) /\ (forall x, In x g -> In x (map it_mod (yield_group req (g, d)))).
+Proof.
+  intros req g d seen H. destruct g as [|m [|m2 r]].
+  - split; [exact I | intros x []].
+  - unfold yield_group. simpl. split; [split; auto | intros x [<-|[]]; left; reflexivity].
+  - rewrite yield_group_cycle. remember (m :: m2 :: r) as g. split.
+    + apply deps_ok_app; [apply firsts_deps_ok; auto|].
+      apply seconds_deps_ok. rewrite firsts_mods. intros x Hx.
+      apply in_app_or in Hx. apply in_or_app. destruct Hx; auto.
+    + intros x Hx. rewrite map_app. apply in_or_app. left. rewrite firsts_mods. exact Hx.
+Qed.
+
+Lemma run_all : forall req ss s seen,
+  deps_closed seen ss -> covered req s seen -> exists s', run req (yield_sorted_modules req ss) s = Some s'.
+Proof.
+  induction ss as [|[g d] r IH]; intros s seen Hd Hc.
+  - exists s. reflexivity.
+  - simpl in Hd. destruct Hd as [Hd1 Hd2].
+    unfold yield_sorted_modules. cbn [flat_map]. rewrite run_app.
+    destruct (group_deps_ok req g d seen Hd1) as [Ho Hm].
+    destruct (run_covered _ _ _ _ Hc Ho) as [s1 [R C]]. rewrite R.
+    apply (IH s1 (seen ++ g)); auto.
+    eapply covered_weaken; eauto. intros x Hx. apply in_app_or in Hx. apply in_or_app. destruct Hx; auto.
+Qed.
+
+Lemma no_keyerror_lemma : forall req ss, deps_closed [] ss -> setup_build req ss <> None.
+Proof.
+  intros req ss H. unfold setup_build.
+  destruct (run_all req ss st0 [] H) as [s' E]; [right; intros x [] | congruence].
+Qed.
+
+(* ------------------------------------------------------------------------------------------ *)
+(* an .imports file still holds what its statement wrote when module names are distinct        *)
+
+Definition item_file (i : item) : impfile := (m_name (it_mod i), is_first (it_stage i)).
+
+Lemma impfile_eqb_eq : forall a b, impfile_eqb a b = true <-> a = b.
+Proof.
+  intros [n f] [n' f']. unfold impfile_eqb. simpl. rewrite andb_true_iff, N.eqb_eq, Bool.eqb_true_iff.
+  split; [intros [? ?]; subst; reflexivity | intros H; inversion H; auto].
+Qed.
+
+Lemma run_store : forall req items s s', run req items s = Some s' ->
+  (forall t, In t (plan s) -> store_get (s_impfile t) (store s) = Some (s_imports t)) ->
+  (forall t, In t (plan s) -> ~ In (s_impfile t) (map item_file items)) ->
+  NoDup (map item_file items) ->
+  forall t, In t (plan s') -> store_get (s_impfile t) (store s') = Some (s_imports t).
+Proof.
+  induction items as [|i r IH]; simpl; intros s s' H Hst Hfresh Hnd.
+  - inversion H; subst; auto.
+  - destruct (setup_step req s i) as [s1|] eqn:E; [|discriminate].
+    inversion Hnd; subst.
+    apply (IH _ _ H); auto.
+    + destruct (setup_step_cases _ _ _ _ E) as [[_ ->] | [[_ [Hd ->]] | [_ [Hnd' [im [ds [Hg [Hdd Hs']]]]]]]]; auto.
+      simpl in Hs'. subst s1. simpl. intros t Hin. apply in_app_or in Hin. destruct Hin as [Hin|[<-|[]]].
+      * destruct (impfile_eqb (s_impfile t) (m_name (it_mod i), is_first (it_stage i))) eqn:Ef.
+        -- apply impfile_eqb_eq in Ef. exfalso. apply (Hfresh _ Hin). left. unfold item_file. auto.
+        -- auto.
+      * simpl. assert (impfile_eqb (m_name (it_mod i), is_first (it_stage i)) (m_name (it_mod i), is_first (it_stage i)) = true)
+          by (apply impfile_eqb_eq; reflexivity). rewrite H0. reflexivity.
+    + destruct (setup_step_cases _ _ _ _ E) as [[_ ->] | [[_ [Hd ->]] | [_ [Hnd' [im [ds [Hg [Hdd Hs']]]]]]]];
+        try (intros t Hin Hc; apply (Hfresh _ Hin); right; exact Hc).
+      simpl in Hs'. subst s1. simpl. intros t Hin Hc. apply in_app_or in Hin. destruct Hin as [Hin|[<-|[]]].
+      * apply (Hfresh _ Hin). right; auto.
+      * simpl in Hc. apply H2. exact Hc.
+Qed.
+
+Lemma yield_files_nodup : forall req ss, NoDup (map m_name (members ss)) ->
+  NoDup (map item_file (yield_sorted_modules req ss)).
+Proof.
+  (* same shape as yield_outs_nodup with m_name for m_key *)
+  intros req ss H.
+  assert (G : forall g d, NoDup (map m_name g) ->
+              NoDup (map item_file (yield_group req (g, d))) /\
+              forall o, In o (map item_file (yield_group req (g, d))) -> exists m b, In m g /\ o = (m_name m, b)).
+  { intros g d Hg. destruct g as [|m [|m2 r]].
+    - split; [constructor | intros o []].
+    - unfold yield_group. simpl. split; [constructor; [simpl; tauto|constructor]|].
+      intros o [<-|[]]. exists m, false. split; [left; reflexivity | reflexivity].
+    - rewrite yield_group_cycle. remember (m :: m2 :: r) as g. rewrite map_app.
+      assert (F1 : forall d0 l, map item_file (firsts req d0 l) = map (fun m => (m_name m, true)) l).
+      { unfold firsts. induction l as [|a l IHl]; simpl; [reflexivity|]. rewrite IHl. reflexivity. }
+      assert (F2 : forall d0 l, map item_file (seconds req d0 l) = map (fun m => (m_name m, false)) (filter (analysed req) l)).
+      { induction l as [|a l IHl]; [reflexivity|]. unfold seconds in *. simpl. unfold analysed at 1.
+        destruct (is_default (get_module_action req a)); simpl; rewrite IHl; reflexivity. }
+      rewrite F1, F2.
+      assert (Nm : forall (b : bool) l, NoDup (map m_name l) -> NoDup (map (fun m => (m_name m, b)) l)).
+      { induction l as [|a l IHl]; simpl; intros Hl; [constructor|]. inversion Hl; subst. constructor; auto.
+        intro Hc. apply H2. apply in_map_iff in Hc. destruct Hc as [x [Hx Hin]]. inversion Hx.
+        apply in_map_iff. exists x; auto. }
+      split.
+      + apply nodup_app; [apply Nm; auto | apply Nm; apply nodup_map_filter; auto|].
+        intros x H1 H2. apply in_map_iff in H1. apply in_map_iff in H2.
+        destruct H1 as [a [<- _]]. destruct H2 as [b [Hb _]]. discriminate.
+      + intros o Ho. apply in_app_or in Ho. destruct Ho as [Ho|Ho]; apply in_map_iff in Ho; destruct Ho as [x [<- Hx]].
+        * exists x, true; auto.
+        * apply filter_In in Hx. destruct Hx. exists x, false; auto. }
+  induction ss as [|[g d] r IH]; [constructor|].
+  unfold members in H. cbn [flat_map fst] in H. rewrite map_app in H.
+  apply nodup_app_inv in H. destruct H as [Hg [Hr Hd]].
+  unfold yield_sorted_modules. cbn [flat_map]. rewrite map_app.
+  destruct (G g d Hg) as [G1 G2]. apply nodup_app; [exact G1 | apply IH; exact Hr |].
+  - intros o H1 H2. destruct (G2 _ H1) as [m [b [Hm ->]]].
+    rewrite flat_map_concat_map in H2. rewrite concat_map in H2. rewrite map_map in H2. apply in_concat in H2.
+    destruct H2 as [l [Hl Ho]]. apply in_map_iff in Hl. destruct Hl as [[g' d'] [<- Hg']].
+    assert (Hn' : NoDup (map m_name g')).
+    { clear -Hr Hg'. unfold members in Hr. induction r as [|[g0 d0] r IH]; [destruct Hg'|].
+      cbn [flat_map fst] in Hr. rewrite map_app in Hr. apply nodup_app_inv in Hr. destruct Hr as [A [B _]].
+      destruct Hg' as [E|E]; [inversion E; subst; auto | auto]. }
+    destruct (G g' d' Hn') as [_ G2']. destruct (G2' _ Ho) as [m' [b' [Hm' Heq]]]. inversion Heq.
+    apply (Hd (m_name m)).
+    + apply in_map; auto.
+    + rewrite H0. apply in_map. unfold members. apply in_flat_map. exists (g', d'); auto.
+Qed.
+
+Lemma imports_files_stable_lemma : forall req ss s,
+  setup_build req ss = Some s -> NoDup (map m_name (members ss)) ->
+  forall t, In t (plan s) -> store_get (s_impfile t) (store s) = Some (s_imports t).
+Proof.
+  intros req ss s H Hn. unfold setup_build in H.
+  apply (run_store req _ _ _ H); simpl; try tauto. apply yield_files_nodup; auto.
+Qed.
+
+(* ------------------------------------------------------------------------------------------ *)
+(* escape_ninja_path followed by ninja's lexer is the identity                                 *)
+
+Local Open Scope N_scope.
+
+(* the exact classes: a path survives iff it has no newline, CR, '|' or NUL; a value iff no newline, CR, NUL *)
+Definition path_char (c : N) : Prop := c <> c_nl /\ c <> c_cr /\ c <> c_pipe /\ c <> c_nul.
+Definition value_char (c : N) : Prop := c <> c_nl /\ c <> c_cr /\ c <> c_nul.
+Definition path_terminator (c : N) : Prop := c = c_sp \/ c = c_colon \/ c = c_pipe \/ c = c_nl.
+
+Lemma lex_cons : forall p m c r,
+  lex p m (c :: r) =
+  match lstep1 p m c with
+  | Cont e m' => lcons e (lex p m' r)
+  | StopBefore e => LDone e (c :: r)
+  | StopAfter e => LDone e r
+  | StopBeforeCR => LDone [] (c_cr :: c :: r)
+  | LErr => LFail
+  end.
+Proof. reflexivity. Qed.
+
+Lemma lstep0_text : forall p c,
+  c <> c_dollar -> c <> c_nul -> c <> c_cr -> c <> c_nl ->
+  (p = true -> c <> c_sp /\ c <> c_colon /\ c <> c_pipe) ->
+  lstep0 p c = Cont [TLit c] M0.
+Proof.
+  intros p c H1 H2 H3 H4 H5. unfold lstep0.
+  rewrite (proj2 (N.eqb_neq _ _) H1), (proj2 (N.eqb_neq _ _) H2), (proj2 (N.eqb_neq _ _) H3),
+          (proj2 (N.eqb_neq _ _) H4).
+  destruct p; [|destruct ((c =? c_sp) || (c =? c_colon) || (c =? c_pipe)); reflexivity].
+  destruct (H5 eq_refl) as [A [B C]].
+  rewrite (proj2 (N.eqb_neq _ _) A), (proj2 (N.eqb_neq _ _) B), (proj2 (N.eqb_neq _ _) C). reflexivity.
+Qed.
+
+Lemma lex_text : forall p c r,
+  c <> c_dollar -> c <> c_nul -> c <> c_cr -> c <> c_nl ->
+  (p = true -> c <> c_sp /\ c <> c_colon /\ c <> c_pipe) ->
+  lex p M0 (c :: r) = lcons [TLit c] (lex p M0 r).
+Proof. intros. rewrite lex_cons. unfold lstep1. rewrite lstep0_text; auto. Qed.
+
+Lemma lcons_nil : forall r, lcons [] r = r.
+Proof. destruct r; reflexivity. Qed.
+
+Lemma lex_escaped : forall p c r, c = c_dollar \/ c = c_sp \/ c = c_colon ->
+  lex p M0 (c_dollar :: c :: r) = lcons [TLit c] (lex p M0 r).
+Proof.
+  intros p c r [ -> | [ -> | -> ] ];
+    match goal with |- _ = ?R => transitivity (lcons [] R); [reflexivity | apply lcons_nil] end.
+Qed.
+
+Lemma escape_cons : forall c s, escape (c :: s) = (if esc_special c then [c_dollar; c] else [c]) ++ escape s.
+Proof. reflexivity. Qed.
+
+Lemma esc_special_cases : forall c, esc_special c = true -> c = c_nl \/ c = c_sp \/ c = c_colon \/ c = c_dollar.
+Proof.
+  intros c H. unfold esc_special in H. rewrite !orb_true_iff, !N.eqb_eq in H. tauto.
+Qed.
+
+Lemma esc_special_not : forall c, esc_special c = false -> c <> c_nl /\ c <> c_sp /\ c <> c_colon /\ c <> c_dollar.
+Proof.
+  intros c H. unfold esc_special in H. rewrite !orb_false_iff, !N.eqb_neq in H. tauto.
+Qed.
+
+Lemma escape_roundtrip_gen : forall p s tail res,
+  (forall c, In c s -> value_char c /\ (p = true -> c <> c_pipe)) ->
+  lex p M0 tail = res ->
+  lex p M0 (escape s ++ tail) = lcons (lits s) res.
+Proof.
+  induction s as [|c s IH]; intros tail res Hg Ht.
+  - simpl. rewrite lcons_nil. exact Ht.
+  - rewrite escape_cons. destruct (Hg c (or_introl eq_refl)) as [[G1 [G2 G3]] G4].
+    assert (IH' := IH tail res (fun x h => Hg x (or_intror h)) Ht).
+    destruct (esc_special c) eqn:E.
+    + apply esc_special_cases in E. destruct E as [E|E]; [congruence|].
+      simpl app. rewrite lex_escaped; [|tauto]. rewrite IH'. destruct res; reflexivity.
+    + apply esc_special_not in E. destruct E as [E1 [E2 [E3 E4]]].
+      assert (T : lex p M0 (c :: escape s ++ tail) = lcons [TLit c] (lex p M0 (escape s ++ tail))).
+      { apply lex_text; auto. }
+      simpl app. rewrite T, IH'. destruct res; reflexivity.
+Qed.
+
+Lemma lex_path_terminator : forall t rest, path_terminator t -> lex true M0 (t :: rest) = LDone [] (t :: rest).
+Proof. intros t rest [ -> | [ -> | [ -> | -> ] ] ]; reflexivity. Qed.
+
+Lemma escape_roundtrip_lemma : forall s t rest,
+  (forall c, In c s -> path_char c) -> path_terminator t ->
+  lex_path (escape s ++ t :: rest) = LDone (lits s) (t :: rest).
+Proof.
+  intros s t rest Hg Ht. unfold lex_path.
+  rewrite (escape_roundtrip_gen true s (t :: rest) (LDone [] (t :: rest))).
+  - simpl. rewrite app_nil_r. reflexivity.
+  - intros c Hc. destruct (Hg c Hc) as [A [B [C D]]]. repeat split; auto.
+  - apply lex_path_terminator; auto.
+Qed.
+
+Lemma escape_roundtrip_value_lemma : forall s rest,
+  (forall c, In c s -> value_char c) ->
+  lex_value (escape s ++ c_nl :: rest) = LDone (lits s) rest.
+Proof.
+  intros s rest Hg. unfold lex_value.
+  rewrite (escape_roundtrip_gen false s (c_nl :: rest) (LDone [] rest)).
+  - simpl. rewrite app_nil_r. reflexivity.
+  - intros c Hc. split; [auto | discriminate].
+  - reflexivity.
+Qed.
+
+(* `module = <name>` is written without escaping: it survives only without '$' *)
+Lemma raw_value_lemma : forall s rest,
+  (forall c, In c s -> value_char c /\ c <> c_dollar) ->
+  lex_value (s ++ c_nl :: rest) = LDone (lits s) rest.
+Proof.
+  unfold lex_value. induction s as [|c s IH]; intros rest Hg; [reflexivity|].
+  destruct (Hg c (or_introl eq_refl)) as [[G1 [G2 G3]] G4].
+  simpl app. rewrite lex_text; auto; [|discriminate].
+  rewrite IH; [reflexivity|]. intros x Hx. apply Hg. right; auto.
+Qed.
+
+(* the evaluated string is the original one whatever the variable environment *)
+Lemma eval_lits : forall env s, eval_toks env (lits s) = s.
+Proof. induction s as [|c s IH]; simpl; [reflexivity|]. rewrite IH. reflexivity. Qed.
+
+(* ------------------------------------------------------------------------------------------ *)
+(* reflection of the boolean well-formedness check, and the file order as a witness schedule   *)
+Local Close Scope N_scope.
+
+Lemma nodupN_NoDup : forall l, nodupN l = true -> NoDup l.
+Proof.
+  induction l as [|x r IH]; simpl; intros H; [constructor|].
+  apply andb_true_iff in H. destruct H as [H1 H2]. constructor; auto.
+  intro Hc. apply memN_In in Hc. rewrite Hc in H1. discriminate.
+Qed.
+
+Lemma deps_closedb_ok : forall ss seen, deps_closedb seen ss = true -> deps_closed seen ss.
+Proof.
+  induction ss as [|[g d] r IH]; simpl; intros seen H; auto.
+  apply andb_true_iff in H. destruct H as [H1 H2]. split; auto.
+  intros x Hx. rewrite forallb_forall in H1. apply memM_In. auto.
+Qed.
+
+Lemma wfb_wf : forall ss, wfb ss = true -> wf ss.
+Proof.
+  intros ss H. unfold wfb in H. apply andb_true_iff in H. destruct H. split.
+  - apply nodupN_NoDup; auto.
+  - apply deps_closedb_ok; auto.
+Qed.
+
+Definition file_rank (p : list step) (t : step) : nat := index_of (s_out t) (map s_out p).
+
+Lemma file_order_respects_lemma : forall req ss s,
+  setup_build req ss = Some s -> NoDup (map s_out (plan s)) ->
+  respects (plan s) (file_rank (plan s)) (fun t => S (file_rank (plan s) t)) /\
+  respects (plan s) (fun t => 2 * file_rank (plan s) t) (fun t => 2 * file_rank (plan s) t + 1).
+Proof.
+  intros req ss s H Hnd. unfold setup_build in H.
+  assert (Hok : forall i, In i (yield_sorted_modules req ss) -> item_ok req i) by (intros; eapply yield_ok; eauto).
+  assert (Hb : deps_back [] (plan s)).
+  { eapply back_run; eauto; [apply inv0 | simpl; auto]. }
+  split; split; intros.
+  - lia.
+  - pose proof (edge_rank _ Hb Hnd _ _ H0). unfold file_rank. lia.
+  - lia.
+  - pose proof (edge_rank _ Hb Hnd _ _ H0). unfold file_rank. lia.
+Qed.
